@@ -33,6 +33,7 @@ static const char *TPL[] = {
     "<loop set=\"obj\" value=\"v\" sort=\"descend\">{var:v}.</loop><loop set=\"list\" value=\"v\">{var:v}</loop>{var:html}",
     "plain text without tags <b> & \"quotes\"",
     "<loop value=\"top\">{var:top}</loop>",
+    "<loop set=\"people\" value=\"p\" group=\"age\">{var:p}:<loop set=\"p\" value=\"q\">{var:q[name]}{var:q[team]}</loop>|</loop>", // keys that are numbers
 };
 static const char *VAL[] = {
     R"({"name":"Q<e>","html":"<i>&</i>","n":5,"flag":true,"phrase":"{0} has {1} & {2}","list":[3,1,2],"obj":{"k2":"b","k1":"a","k3":[1]},"people":[{"name":"A","team":"x","age":31},{"name":"B","team":"y","age":25},{"name":"C","team":"x","age":40}],"matrix":[[1,2],[3,4]]})",
